@@ -1,10 +1,10 @@
-from textwrap import indent
 from typing import Dict
 
 from pydbml.classes import Project
 from pydbml.renderer.dbml.default.renderer import DefaultDBMLRenderer
 from pydbml.renderer.dbml.default.utils import comment_to_dbml, prepare_text_for_dbml
 from pydbml.tools import doublequote_string
+from pydbml.tools import indent_lines as indent
 
 
 def render_items(items: Dict[str, str]) -> str:
